@@ -159,6 +159,11 @@ class Trend(BaseGridder):
         """
         check_is_fitted(self, ["coef_"])
         easting, northing = n_1d_arrays(coordinates, 2)
+        # Integer coordinates overflow silently when raised to a power
+        easting, northing = (
+            np.asarray(i, dtype=np.result_type(i.dtype, "float64"))
+            for i in (easting, northing)
+        )
         shape = np.broadcast(*coordinates[:2]).shape
         data = np.zeros(easting.size, dtype=np.result_type(easting.dtype, "float64"))
         combinations = polynomial_power_combinations(self.degree)
@@ -211,6 +216,11 @@ class Trend(BaseGridder):
         easting, northing = n_1d_arrays(coordinates, 2)
         if easting.shape != northing.shape:
             raise ValueError("Coordinate arrays must have the same shape.")
+        # Integer coordinates overflow silently when raised to a power
+        easting, northing = (
+            np.asarray(i, dtype=np.result_type(i.dtype, "float64"))
+            for i in (easting, northing)
+        )
         combinations = polynomial_power_combinations(self.degree)
         ndata = easting.size
         nparams = len(combinations)
